@@ -1047,6 +1047,7 @@ package stun
 //@   ensures sameslice(m.Attributes, old(m.Attributes))
 //@   ensures m.Length == old(vpos(ValueLens(m), len(m.Attributes))) - 20 && len(m.Raw) == 20 + m.Length
 //@   ensures len(m.Attributes) > 0 ==> be16(m.Raw, 2) == m.Length
+//@   ensures len(m.Attributes) == 0 ==> m.Raw[2] == old(m.Raw[2]) && m.Raw[3] == old(m.Raw[3])
 //@   ensures forall(i, 0, 20, i == 2 || i == 3 || m.Raw[i] == old(m.Raw[i]))
 //@   ensures region(m.Raw) == old(region(m.Raw)) || fresh(m.Raw)
 //@   ensures forall(k, 0, len(m.Attributes), m.Attributes[k].Type == old(m.Attributes[k].Type) && m.Attributes[k].Length == old(len(m.Attributes[k].Value)) && len(m.Attributes[k].Value) == old(len(m.Attributes[k].Value)))
@@ -1058,6 +1059,7 @@ package stun
 //@     invariant region(m.Attributes) == region(attributes) && off(m.Attributes) == off(attributes) && len(m.Attributes) == rangeindex + 1 && cap(m.Attributes) == cap(attributes)
 //@     invariant m.Length == loopold(vpos(lenslice(attributes, Value), rangeindex + 1)) - 20 && len(m.Raw) == 20 + m.Length
 //@     invariant rangeindex >= 0 ==> be16(m.Raw, 2) == m.Length
+//@     invariant rangeindex == -1 ==> m.Raw[2] == loopold(m.Raw[2]) && m.Raw[3] == loopold(m.Raw[3])
 //@     invariant region(m.Raw) == loopold(region(m.Raw)) && off(m.Raw) == loopold(off(m.Raw)) || loopfresh(m.Raw)
 //@     invariant forall(i, 0, 20, i == 2 || i == 3 || m.Raw[i] == loopold(m.Raw[i]))
 //@     invariant forall(k, rangeindex + 1, len(attributes), attributes[k] == loopold(attributes[k]))
